@@ -99,7 +99,7 @@ CHECKS = {
  "C02": (True,
    "property-based testing: differential against a reference JSON path walk + typing model, plus the metamorphic column-independence relation, over generated definitions and documents",
    "Generated-input search: JSON-path columns drawn from a generated document's own paths (then mutated) with natural and deliberately wrong types, CONVERT / DEFAULT / NOT NULL, mixed with regex columns; lines vary the document (fresh leaves incl. numbers beyond i64/f64, dropped and duplicated keys, invalid and non-JSON text). Every extracted column is compared with the model; each column must keep its value when the other columns are removed from the definition. Exploration, not proof.",
-   "JSON validity and the document tree come from the harness's own reader (numbers kept as text); REAL within 2 ULP; integral-valued reals for INT and documents with numbers beyond f64 are not judged. One recorded known finding (F39: documents nested 128 or more levels deep are read as not-JSON) is excluded by construction (depth capped at 125) and replayed as a witness.",
+   "JSON validity and the document tree come from the harness's own reader (numbers kept as text); REAL within 2 ULP; integral-valued reals for INT and documents with numbers beyond f64 are not judged. Two recorded known findings (F39: documents nested 128 or more levels deep are read as not-JSON; F63: an object keyed by serde_json's private number marker) are excluded by construction and replayed as witnesses.",
    "DESIGN.md §3 C02, §7.2"),
  "C09": (True,
    "property-based testing / fuzz-style totality search with a semantic oracle: hazard-dialled statement and data generators x arbitrary input bytes x output formats x 6 time zones (one supervised child process per zone); exact-or-error judging of INT results",
